@@ -55,6 +55,17 @@ fn main() {
             }
             0
         }
+        "trace" => {
+            // chalk-sim trace <replay.json>: execute the replay's spec in this process with chalk's own tracing
+            // output (filter from CHALK_DEBUG, e.g. CHALK_DEBUG=chalk_recursive=debug) on stdout; debugging aid only
+            let text = std::fs::read_to_string(args.get(2).expect("file")).expect("read");
+            let v: Value = serde_json::from_str(&text).expect("json");
+            let req = json!({"check": v["property"], "idx": 0, "spec": v["spec"]});
+            let t = std::thread::Builder::new().stack_size(1usize << 30).spawn(move || chalk_solve::logging::with_tracing_logs(|| handle_request(&req))).expect("spawn");
+            let r = t.join().expect("join");
+            println!("outcome {} violations {:?}", r.outcome, r.violations.iter().map(|v| (&v.class, &v.detail)).collect::<Vec<_>>());
+            0
+        }
         "gen" => {
             // print the explicit spec of one run without executing it
             let id = args.get(2).cloned().unwrap_or_default();
